@@ -45,6 +45,7 @@ import r52_weightconst
 import r53_excess
 import r54_continuation
 import r55_implicit
+import r56_fftnorm
 import r06_validate
 import r07_cache
 import r08_toporder
@@ -251,6 +252,10 @@ def r54(ctx, prop):
 
 def r55(ctx, prop):
     return r55_implicit.run(ctx.F())
+
+
+def r56(ctx, prop):
+    return r56_fftnorm.run(ctx.F())
 
 
 def r43(ctx, prop):
@@ -499,7 +504,7 @@ PROPERTY_RULES = {
     "C12": [r4, r16, r50, r54, r24],
     "C19": [r55, r1_functional, r8, r21, r10_selconst],
     "C15": [r15],
-    "C16": [r51, r52, r53, r48, r10_selconst],
+    "C16": [r51, r52, r53, r56, r48, r10_selconst],
     "C20": [r10_transport, r21, r25, r24, r34, r10_selconst, r41, r47],
     "C01": [r1_all, r2, r7, r8, r4, r25, r24, r26, r28, r29, r39, r40, r44, r20b],
     "C13": [r1_guard, r8, r21, r32, r36, r43],
